@@ -1,6 +1,7 @@
 package families
 
 import (
+	corev1 "k8s.io/api/core/v1"
 	"github.com/NVIDIA/KAI-scheduler/pkg/scheduler/framework"
 
 	"verif/mc/clustermc"
@@ -142,6 +143,52 @@ func multiReclaimerScenarios(tier string) []clustermc.Scenario {
 	return wlScenariosRange(menu, lay, qsets, []schedrun.Config{{}, {SaturationMultiplier: "1.5"}}, 4, kMax)
 }
 
+// unbalancedTreeScenarios: the reclaimer's leaf and the victim's leaf sit at DIFFERENT depths
+// (dA/qa against dB/tB1/qb and dB/tB2/qc). The level at which the two sides diverge is the
+// department; a team below it may well be above its own quota while its department is not. Pods are
+// pinned to node pools so that an idle GPU elsewhere does not help the reclaimer.
+func unbalancedTreeScenarios(tier string) []clustermc.Scenario {
+	pin := func(ps []world.PodSpec, pool string) []world.PodSpec {
+		for i := range ps {
+			ps[i].Mutate = func(p *corev1.Pod) { p.Spec.NodeSelector = map[string]string{"pool": pool} }
+		}
+		return ps
+	}
+	menu := []wlItem{
+		{"run-g1-qb-x", world.WL{Queue: "qb", Pods: pin(pods(1, shG1, world.StRunning, "n1"), "x")}},
+		{"run-g1-qc-x", world.WL{Queue: "qc", Pods: pin(pods(1, shG1, world.StRunning, "n1"), "x")}},
+		{"run-g1-qc-y", world.WL{Queue: "qc", Pods: pin(pods(1, shG1, world.StRunning, "n2"), "y")}},
+		{"run-g1-qa-y", world.WL{Queue: "qa", Pods: pin(pods(1, shG1, world.StRunning, "n2"), "y")}},
+		{"pend-g1-qa-x", world.WL{Queue: "qa", Pods: pin(pods(1, shG1, "", ""), "x")}},
+		{"pend-g1-qc-x", world.WL{Queue: "qc", Pods: pin(pods(1, shG1, "", ""), "x")}},
+		{"pend-g1-np-qa-x", world.WL{Queue: "qa", PC: "p100", Pods: pin(pods(1, shG1, "", ""), "x")}},
+	}
+	u := world.QUnlimited()
+	g := func(q float64) world.QRes { return world.QRes{Quota: q, Limit: -1, Weight: 1} }
+	var qsets []queueSetup
+	for _, qa := range []float64{1, 2} {
+		for _, db := range []float64{2, 1} {
+			qa, db := qa, db
+			qsets = append(qsets, queueSetup{name("unbalanced-dA(qa)-dB(tB1(qb),tB2(qc))-q", []int{int(qa), int(db)}), func(b *world.Builder) {
+				for _, q := range []world.QueueOpt{{Name: "dA", GPU: g(qa)}, {Name: "dB", GPU: g(db)}, {Name: "qa", Parent: "dA", GPU: g(qa)},
+					{Name: "tB1", Parent: "dB", GPU: g(1)}, {Name: "tB2", Parent: "dB", GPU: g(1)}, {Name: "qb", Parent: "tB1", GPU: g(1)}, {Name: "qc", Parent: "tB2", GPU: g(1)}} {
+					q.CPU, q.Mem = u, u
+					b.Queue(q)
+				}
+			}})
+		}
+	}
+	lay := []nodeLayout{
+		{"2n-2x+1y", []world.NodeOpt{{Name: "n1", CPU: "16", Mem: "32Gi", GPUs: 2, GPUMemMiB: 40000, Labels: map[string]string{"pool": "x"}}, {Name: "n2", CPU: "16", Mem: "32Gi", GPUs: 1, GPUMemMiB: 40000, Labels: map[string]string{"pool": "y"}}}},
+		{"2n-2x+2y", []world.NodeOpt{{Name: "n1", CPU: "16", Mem: "32Gi", GPUs: 2, GPUMemMiB: 40000, Labels: map[string]string{"pool": "x"}}, {Name: "n2", CPU: "16", Mem: "32Gi", GPUs: 2, GPUMemMiB: 40000, Labels: map[string]string{"pool": "y"}}}},
+	}
+	kMax := 4
+	if tier == "thorough" {
+		kMax = 5
+	}
+	return wlScenariosRange(menu, lay, qsets, []schedrun.Config{{}, {SaturationMultiplier: "1.5", ConsolidatingReclaim: true}}, 2, kMax)
+}
+
 func C07() *clustermc.Family {
 	return &clustermc.Family{
 		Property: "C07",
@@ -151,7 +198,7 @@ func C07() *clustermc.Family {
 				{"2n-3+1gpu", []world.NodeOpt{{Name: "n1", CPU: "16", Mem: "32Gi", GPUs: 3, GPUMemMiB: 40000}, {Name: "n2", CPU: "16", Mem: "32Gi", GPUs: 1, GPUMemMiB: 40000}}},
 			}
 			cfgs := []schedrun.Config{{}, {SaturationMultiplier: "1.5", ConsolidatingReclaim: true}}
-			return append(append(wlScenarios(tier, reclaimMenu(), lay, reclaimQueues(), cfgs, 3, 4), crossDeptScenarios(tier)...), multiReclaimerScenarios(tier)...)
+			return append(append(append(wlScenarios(tier, reclaimMenu(), lay, reclaimQueues(), cfgs, 3, 4), crossDeptScenarios(tier)...), multiReclaimerScenarios(tier)...), unbalancedTreeScenarios(tier)...)
 		},
 		Depth: func(tier string) int {
 			if tier == "thorough" {
